@@ -347,6 +347,44 @@ func (g *gen) reuseMW(n, k, calls int) {
 	g.addConc(concObs{Known: false, Hosts: hs, K: k, Calls: calls, Per: all}, "reuse-middleware")
 }
 
+// builtOnOneProc: a balancer built by sd.NewBalancer (directly, or inside a generic middleware
+// constructor) while GOMAXPROCS is 1 is the round robin one; the processor count is raised
+// afterwards and k callers use it in parallel
+func concBuiltOnOneProc(hs []string, k, calls int, viaMW int) concObs {
+	var b sd.Balancer
+	var p proxy.Proxy
+	withProcs(1, func() {
+		sub := sd.SubscriberFunc(func() ([]string, error) { return hs, nil })
+		switch viaMW {
+		case 0:
+			b = sd.NewBalancer(sub)
+		case 1:
+			p = proxy.NewLoadBalancedMiddlewareWithSubscriber(sub)(nextRecorder)
+		default:
+			p = proxy.NewLoadBalancedMiddlewareWithSubscriberAndLogger(logging.NoOp, sd.FixedSubscriber(hs))(nextRecorder)
+		}
+	})
+	if runtime.GOMAXPROCS(0) < 4 {
+		runtime.GOMAXPROCS(4)
+	}
+	if b != nil {
+		start, known := sd.VerifC14Counter(b)
+		per := runConcurrent(k, calls, nil, func(int) res { return callHost(b) })
+		end, _ := sd.VerifC14Counter(b)
+		return concObs{Known: known, Hosts: hs, K: k, Calls: calls, Before: start, After: end, Per: per}
+	}
+	nreq := make([]int, k)
+	per := runConcurrent(k, calls, nil, func(i int) res { nreq[i]++; return callMW(p, i*100000+nreq[i]) })
+	return concObs{Known: false, Hosts: hs, K: k, Calls: calls, Per: per}
+}
+
+func (g *gen) builtOnOneProc() {
+	// long runs with M a multiple of n: one lost counter update makes some host's count differ from M/n
+	for i, c := range [][3]int{{2, 8, 750}, {3, 8, 750}, {5, 10, 500}, {3, 16, 375}, {4, 8, 500}, {7, 14, 250}} {
+		g.addConc(concBuiltOnOneProc(hostList(c[0]), c[1], c[2], i%3), "built-with-one-processor")
+	}
+}
+
 func (g *gen) instanceReuse() {
 	ns := []int{2, 3, 5, 7, 16, 64}
 	for i, n := range ns {
